@@ -23,3 +23,28 @@ Theorem C02_unlimited_read_is_filter :
     search_data lm c t q =
     Ok (filter verdict (map (get_item t) (if q_forward q then t_sorted t else rev (t_sorted t))), [], []).
 Proof. exact search_unlimited_base_filter. Qed.
+
+(* Through a secondary index (global or local) satisfying IInv - every index of every reachable state does, C03 - an
+   unlimited read evaluates the request on the index's entries in (index key, primary key) order (reverse when
+   backward) and returns exactly the matching ones ... *)
+From Minidyn Require Import Proofs.IndexInv Proofs.IndexWalk.
+
+Theorem C02_unlimited_index_read_is_selection :
+  forall lm c t q n ix,
+    q_index q = Some n -> lookup n (t_indexes t) = Some ix -> IInv (t_defs t) (t_data t) ix -> unlimited q ->
+    search_data lm c t q =
+    omap (fun '(l, f) => (l, [], f))
+         (select_items lm c t q (map (fun r : str * str => get_item t (fst r)) (sorted_refs ix (q_forward q)))).
+Proof. exact search_unlimited_index. Qed.
+
+(* ... where the entries are exactly the stored items that have the index's key attributes, each once (pk, index key) ... *)
+Theorem C02_index_entries_are_the_indexed_items :
+  forall defs data ix (fwd : bool) pk ik,
+    IInv defs data ix ->
+    (In (pk, ik) (sorted_refs ix fwd) <-> exists it, lookup pk data = Some it /\ index_key_of (ix_ks ix) defs it = Some ik).
+Proof. exact sorted_refs_In. Qed.
+
+(* ... strictly ordered by index key, ties broken by primary key (so equal index keys come in primary-key order) *)
+Theorem C02_index_entries_strictly_ordered :
+  forall refs, wf refs -> Sorted.StronglySorted rlt (asc_refs refs).
+Proof. exact asc_refs_strict. Qed.
